@@ -91,6 +91,9 @@ type EnvN struct {
 	Keys     []*keys.PrivateKey // sorted by public key, as neo.GetCommittee() returns them
 	Alphabet neotest.Signer     // 2n/3+1 multisig: common.AlphabetAddress()
 	Majority neotest.Signer     // n/2+1 multisig: common.CommitteeAddress()
+	// Validators is the block-signing account of the consensus nodes (a strict subset of the
+	// committee on chains made by NewEnvNV with v < n); it is no Alphabet or committee account.
+	Validators neotest.Signer
 }
 
 // HarnessKey returns the i-th deterministic private key of the harness.
@@ -121,7 +124,11 @@ func MultiSignerOf(m int, ks []*keys.PrivateKey) neotest.Signer {
 }
 
 // NewEnvN creates a chain with a committee (= validators) of n harness keys.
-func NewEnvN(t testing.TB, n int) *EnvN {
+func NewEnvN(t testing.TB, n int) *EnvN { return NewEnvNV(t, n, n) }
+
+// NewEnvNV: a chain whose committee has n keys of which the first v (in key order) are the
+// consensus nodes, as on public networks (committee 21, validators 7).
+func NewEnvNV(t testing.TB, n, nv int) *EnvN {
 	ks := make([]*keys.PrivateKey, n)
 	for i := range ks {
 		ks[i] = HarnessKey(i)
@@ -135,13 +142,13 @@ func NewEnvN(t testing.TB, n int) *EnvN {
 		Logger: zap.NewNop(),
 		BlockchainConfigHook: func(c *config.Blockchain) {
 			c.StandbyCommittee = hexes
-			c.ValidatorsCount = uint32(n)
+			c.ValidatorsCount = uint32(nv)
 		}})
-	validator := MultiSignerOf(smartcontract.GetDefaultHonestNodeCount(n), ks)
+	validator := MultiSignerOf(smartcontract.GetDefaultHonestNodeCount(nv), ks[:nv])
 	majority := MultiSignerOf(smartcontract.GetMajorityHonestNodeCount(n), ks)
 	e := neotest.NewExecutor(t, bc, validator, majority)
 	return &EnvN{Env: &Env{T: t, E: e, BC: bc}, Keys: ks,
-		Alphabet: MultiSignerOf(n*2/3+1, ks), Majority: majority}
+		Alphabet: MultiSignerOf(n*2/3+1, ks), Majority: majority, Validators: validator}
 }
 
 // Compile compiles contract <name> from the working tree.
@@ -190,6 +197,35 @@ func (v *Env) PrepareTx(signers []neotest.Signer, h util.Uint160, method string,
 		signers = []neotest.Signer{v.E.Validator}
 	}
 	return v.E.SignTx(v.T, tx, 30_0000_0000, signers...)
+}
+
+// DeployWith deploys c in a transaction sent by the chain's funding account (so the contract
+// hash is the usual one) and co-signed by the given accounts, e.g. the Alphabet account a _deploy
+// needs for its calls into other contracts on chains where it is not the funding account.
+func (v *Env) DeployWith(c *neotest.Contract, data any, cosigners ...neotest.Signer) {
+	rawManifest, err := json.Marshal(c.Manifest)
+	if err != nil {
+		v.T.Fatalf("manifest: %v", err)
+	}
+	neb, err := c.NEF.Bytes()
+	if err != nil {
+		v.T.Fatalf("nef: %v", err)
+	}
+	tx := v.E.NewUnsignedTx(v.T, v.E.NativeHash(v.T, "ContractManagement"), "deploy", neb, rawManifest, data)
+	sg := []neotest.Signer{v.E.Validator}
+	seen := map[util.Uint160]bool{v.E.Validator.ScriptHash(): true}
+	for _, c := range cosigners {
+		if !seen[c.ScriptHash()] {
+			seen[c.ScriptHash()] = true
+			sg = append(sg, c)
+		}
+	}
+	tx = v.E.SignTx(v.T, tx, 500_0000_0000, sg...)
+	v.E.AddNewBlock(v.T, tx)
+	v.E.CheckHalt(v.T, tx.Hash())
+	if v.BC.GetContractState(c.Hash) == nil {
+		v.T.Fatalf("deployed contract has another hash")
+	}
 }
 
 // PrepareTxScoped is PrepareTx with an explicit witness scope per signer (the
